@@ -295,7 +295,8 @@ CLAIMS["C05"] = dict(
          "(Q/Q0)(eta/eta0)(L0/L)^3 for both routes (=> routes agree, events "
          "independent, proportional to eta and Q), invariance under a joint "
          "geometric rescaling, inputs and LUT unmodified, no state between "
-         "calls.",
+         "calls."
+         " The real viscosity models run on a symbolic per-event temperature array (exp / real powers as fresh reals): the caller's array is unchanged.",
     note="Trusted: z3/nlsat, symx, numpy shim with LUT column views, "
          "positive homogeneity of griddata in its values. NOT covered (not "
          "encodable): the interpolation inside griddata (Qhull) incl. 'NaN "
